@@ -14,10 +14,14 @@ LEVEL = "exploration"
 RULE = ("random abstract programs (1-8 commands, 0-6 arguments; ints, decimals in every spelling, quoted strings with delimiters / "
         "quotes / escapes / non-ASCII, unquoted words, sentences, paths, URLs, lists nested <=3, tuples) x random renderings; plus "
         "single-token corruptions; distinct by (multiset of leaf value classes, layout features used, eol)")
-REQUIRED_COUNTERS = ["parses_compared", "corruptions_checked", "leaf_values_compared"]
+REQUIRED_COUNTERS = ["parses_compared", "corruptions_checked", "leaf_values_compared", "parser_reuse_cases"]
 ASSUMPTIONS = ["expected content of quoted strings = text after unescaping \\\\ \\\" \\' \\n \\t (as tests/test_parser.py fixes)",
                "expected unquoted text = the written words joined by their single blanks, trimmed",
                "don't-care: duplicate tuple keys, comments/newlines inside unquoted strings, bare True/False words, other backslash escapes"]
+
+
+REUSE_TEXTS = ["A = Cmd(P = 1)\nB = Cmd(Q = [1, 2\nC = Cmd()", "A = Cmd(P = 1)\nB = Cmd(Q = two words)\nC = = Cmd()", "X = Other(L = [a, b], T = [k: v])",
+               "READ(InFileName = foo.gdb, InFieldName = Test)\nOut = CVTTOFUZZY(InFieldName = Test)\n", "A = Cmd(P = 'unterminated)\n", "A = Cmd(P = 1) B"]
 
 
 def cases(ctx):
@@ -28,7 +32,12 @@ def cases(ctx):
         eol = rng.choice(["\n", "\n", "\n", "\r\n"])
         rawnl = rng.random() < 0.2 and eol == "\n"   # a raw line break inside a quoted string is content: keep it LF
         text = syntax.render(prog, random.Random(rng.randrange(10 ** 9)), style, raw_newline_strings=rawnl, eol=eol)
-        yield {"kind": "parse", "prog": _clean(prog), "text": text, "style": style, "eol": "crlf" if eol != "\n" else "lf"}
+        case = {"kind": "parse", "prog": _clean(prog), "text": text, "style": style, "eol": "crlf" if eol != "\n" else "lf"}
+        if rng.random() < 0.2:
+            # the same Parser object has parsed other texts before (well-formed ones, EEMS 2.0 ones, and malformed ones whose
+            # error comes after complete commands)
+            case["before"] = [rng.choice(REUSE_TEXTS + [text]) for _ in range(rng.randint(1, 3))]
+        yield case
     for i in range(ctx.n(1200, 80000)):
         # corruption of well-behaved programs (quoted strings / numbers / identifier words only, so that the base text parses)
         prog = syntax.gen_program(rng, max_cmds=3, max_args=3, ustr_classes=["word"], rich=False)
@@ -63,10 +72,16 @@ def _leaves(v, in_list=False):
         yield (({"t": "list", "items": [v], "trail": False} if in_list else v), v)
 
 
-def _parse(text):
+def _parse(text, before=()):
     from mpilot.parser.parser import Parser
+    parser = Parser()
+    for t in before:
+        try:
+            parser.parse(t)
+        except Exception:
+            pass
     try:
-        return Parser().parse(text), None
+        return parser.parse(text), None
     except Exception as e:
         return None, e
 
@@ -158,7 +173,20 @@ def run_case(ctx, case):
     ctx.count("parses_compared")
     ctx.count("leaf_values_compared", n)
     ctx.feature((tuple(sorted(classes)), case["style"], case["eol"], "#" in text, "\t" in text))
-    tree, exc = _parse(text)
+    before = case.get("before") or ()
+    if before:
+        ctx.count("parser_reuse_cases")
+    tree, exc = _parse(text, before)
+    if before:
+        # judged against a fresh parser on the same text: only the influence of the earlier parses is at stake here
+        ftree, fexc = _parse(text)
+        if fexc is None and syntax.first_diff(prog, ftree) is None:
+            d = None if exc is not None else syntax.first_diff(prog, tree)
+            if exc is not None or d is not None or getattr(tree, "version", 3) != getattr(ftree, "version", 3):
+                what = "rejected-%s" % type(exc).__name__ if exc is not None else (d[0] if d else "version-flag")
+                ctx.fail("reuse:parser-object-remembers-earlier-text:%s" % what.split(":")[0].split("[")[0], {"text": text[:400], "before": list(before), "got": repr(d[1])[:200] if d else None, "want": repr(d[2])[:200] if d else None})
+            return
+        tree, exc = ftree, fexc      # the text itself is at fault: judged as for a fresh parser
     if exc is None:
         d = syntax.first_diff(prog, tree)
         if d is None:
